@@ -4,7 +4,8 @@ vanishing time to maturity equals the payoff), R3 barrier / running-maximum boun
 R4 units, R5 module wiring and registry.
 Added after the seeded-defect rounds: R7 precision provenance: strike, float time to maturity / volatility and constants are not rounded to the default dtype on the way into the closed forms.
 Third round: R7 also: the closed forms compute in the dtype of their inputs; R7d the state a module takes from its derivative (strike as given, grid in the data's dtype); R7h that state follows re-simulation / re-configuration (call histories); R8 module constructors.
-Rounds 4-5: R5 the re-binding idiom binds methods under their own name; R5p an explicitly given parameter is used as given by a derivative-bound module."""
+Rounds 4-5: R5 the re-binding idiom binds methods under their own name; R5p an explicitly given parameter is used as given by a derivative-bound module.
+Round 7: R5 call history 'rebuild' (build the module, change strike / call flag on the same derivative, build again: the second module carries the current contract; memoised factories); forwarded arguments are read by parameter name."""
 import ast
 
 import sympy as sp
